@@ -6,6 +6,7 @@ import (
 	"fmt"
 	"os"
 	"path/filepath"
+	"strings"
 	"sync/atomic"
 	"time"
 
@@ -52,7 +53,7 @@ func (d *dbWorld) opts() *database.Options {
 		WithTimeFunc(func() time.Time { return d.base.Add(time.Duration(atomic.AddInt64(d.clock, 1)) * d.step) })
 	so.WithIndexOptions(so.IndexOpts.WithFlushBufferSize(1 << 14).WithCacheSize(256))
 	so.WithAHTOptions(so.AHTOpts.WithWriteBufferSize(1 << 14))
-	return database.DefaultOptions().WithDBRootPath(d.dir).WithStoreOptions(so)
+	return database.DefaultOptions().WithDBRootPath(d.dir).WithStoreOptions(so).WithReadTxPoolSize(4)
 }
 
 func (d *dbWorld) viol(sig, text string) {
@@ -60,7 +61,9 @@ func (d *dbWorld) viol(sig, text string) {
 		map[string]interface{}{"valueLogs": d.m, "fileSize": d.fsize, "events": d.events, "cut": d.cut, "how": "harness/cmd/c14 -mode db"})
 }
 
-func pad(s string) string { return s + "-" + string(vh.Bytes(7, s, 0, 24)[0]%26+'a') + "padpadpadpadpadpadpadpadpadpad" }
+func pad(s string) string {
+	return s + "-" + string(vh.Bytes(7, s, 0, 24)[0]%26+'a') + "padpadpadpadpadpadpadpadpadpad"
+}
 
 func (d *dbWorld) insertRound() error {
 	i := d.next
@@ -154,7 +157,7 @@ func (d *dbWorld) check(phase string) {
 	for id := uint64(1); id <= st.TxId && !d.hung; id++ {
 		var xerr error
 		var bs []byte
-		_, hung, _ := vh.Guard(hangDeadline, func() { bs, _, _, xerr = d.db.ExportTxByID(ctx, &schema.ExportTxRequest{Tx: id}) })
+		hung := blocked(func() { bs, _, _, xerr = d.db.ExportTxByID(ctx, &schema.ExportTxRequest{Tx: id}) })
 		d.res.Count("db:ExportTxByID", 1)
 		switch {
 		case hung:
@@ -205,6 +208,7 @@ func (d *dbWorld) more(phase string, k int) bool {
 
 func runDB(seed int64, dir string, runs, rounds int, res *vh.Result) {
 	vh.Must(os.MkdirAll(dir, 0o755), "mkdir")
+	runRefusedExport(filepath.Join(dir, "refused"), res)
 	cfgs := [][2]int{{2, 256}, {1, 192}, {3, 512}, {2, 1 << 16}}
 	for r := 0; r < runs && r < len(cfgs); r++ {
 		var clock int64
@@ -253,7 +257,7 @@ func runDB(seed int64, dir string, runs, rounds int, res *vh.Result) {
 		t2 := truncator.NewTruncator(d.db, retention, 0, logger.NewMemoryLoggerWithLevel(logger.LogError))
 		for rep := 0; rep < 2; rep++ { // the second call repeats the same truncation
 			var terr error
-			_, hung, _ := vh.Guard(3*hangDeadline, func() { terr = t2.Truncate(ctx, retention) })
+			hung := blocked(func() { terr = t2.Truncate(ctx, retention) })
 			if hung {
 				d.hung = true
 				d.viol("truncator.Truncate:blocked", "Truncate did not return")
@@ -285,4 +289,97 @@ func runDB(seed int64, dir string, runs, rounds int, res *vh.Result) {
 		res.Distinct++
 		os.RemoveAll(d.dir)
 	}
+}
+
+// runRefusedExport: resources held after a refused export.  One value log, file size 256, read tx-holder pool of 3.
+// tx 1 = one 100-byte value (offset 0), tx 2 = three 100-byte values (offsets 101, 202, 303: chunk files 0, 0, 1),
+// tx 3 = one 100-byte value (offset 404: file 1).  Truncation at tx 3 through the database truncator removes file 0, so
+// tx 2 is partially truncated and ExportTxByID(2) is legitimately refused.  A replica retrying that export pool size + 2
+// times must leave the database able to serve Get, ExportTxByID of the last tx, TxByID and VerifiableTxByID.
+func runRefusedExport(dir string, res *vh.Result) {
+	const pool = 3
+	vh.Must(os.MkdirAll(dir, 0o755), "mkdir")
+	so := store.DefaultOptions().WithSynced(false).WithEmbeddedValues(false).WithMaxConcurrency(8).WithMaxIOConcurrency(1).
+		WithFileSize(256).WithMaxValueLen(1 << 12).WithWriteBufferSize(1 << 14).WithLogger(logger.NewMemoryLoggerWithLevel(logger.LogError))
+	so.WithIndexOptions(so.IndexOpts.WithFlushBufferSize(1 << 14).WithCacheSize(256))
+	so.WithAHTOptions(so.AHTOpts.WithWriteBufferSize(1 << 14))
+	db, err := database.NewDB("db", nil, database.DefaultOptions().WithDBRootPath(dir).WithStoreOptions(so).WithReadTxPoolSize(pool),
+		logger.NewMemoryLoggerWithLevel(logger.LogError))
+	vh.Must(err, "NewDB")
+	defer db.Close()
+	ctx := context.Background()
+	val := func(i int) []byte { return vh.Bytes(11, "refused", i, 100) }
+	set := func(keys ...int) uint64 {
+		var kvs []*schema.KeyValue
+		for _, k := range keys {
+			kvs = append(kvs, &schema.KeyValue{Key: []byte(fmt.Sprintf("rk%d", k)), Value: val(k)})
+		}
+		h, err := db.Set(ctx, &schema.SetRequest{KVs: kvs})
+		vh.Must(err, "Set")
+		return h.Id
+	}
+	set(1)
+	partial := set(2, 3, 4)
+	cutTx := set(5)
+	if err := database.NewVlogTruncator(db, logger.NewMemoryLoggerWithLevel(logger.LogError)).TruncateUptoTx(ctx, cutTx); err != nil {
+		vh.Fatalf("refused export: TruncateUptoTx(%d): %v", cutTx, err)
+	}
+	steps := []string{"1 value log, file size 256, ReadTxPoolSize 3", "Set(1 x 100 bytes) = tx 1; Set(3 x 100 bytes) = tx 2; Set(1 x 100 bytes) = tx 3",
+		fmt.Sprintf("vlogTruncator.TruncateUptoTx(%d)", cutTx)}
+	viol := func(sig, text string) {
+		res.Violate(sig, "database (refused export): "+text, map[string]interface{}{"steps": steps, "how": "harness/cmd/c14 -mode db (runRefusedExport)"})
+	}
+	classify := func(what string, err error) {
+		if errors.Is(err, database.ErrTxReadPoolExhausted) {
+			viol("database.ExportTxByID:refused-export-leaks-tx-holder:read-pool-exhausted", fmt.Sprintf("%s after %d refused ExportTxByID(%d): %v", what, pool+2, partial, err))
+		} else {
+			viol("database:request-fails-after-refused-export", fmt.Sprintf("%s after %d refused ExportTxByID(%d): %v", what, pool+2, partial, err))
+		}
+	}
+	refused := 0
+	for i := 0; i < pool+2; i++ {
+		var xerr error
+		if blocked(func() { _, _, _, xerr = db.ExportTxByID(ctx, &schema.ExportTxRequest{Tx: partial}) }) {
+			viol(sigExpHang, fmt.Sprintf("ExportTxByID(%d), call %d, did not return", partial, i+1))
+			return
+		}
+		switch {
+		case xerr == nil:
+			res.Count("db:refusal-layout-not-reached", 1) // tx 2 is not partially truncated: the layout differs from the intended one
+			return
+		case errors.Is(xerr, database.ErrTxReadPoolExhausted):
+			viol("database.ExportTxByID:refused-export-leaks-tx-holder:read-pool-exhausted", fmt.Sprintf("call %d of ExportTxByID(%d) (partially truncated tx): %v", i+1, partial, xerr))
+			return
+		case strings.Contains(xerr.Error(), "partially truncated"):
+			refused++
+		default:
+			res.Count("db:refusal-layout-not-reached", 1)
+			return
+		}
+	}
+	steps = append(steps, fmt.Sprintf("ExportTxByID(%d) x %d: refused (partially truncated transaction)", partial, refused))
+	res.Count("db:refused-exports", refused)
+	st, err := db.CurrentState()
+	vh.Must(err, "CurrentState")
+	if e, err := db.Get(ctx, &schema.KeyRequest{Key: []byte("rk5")}); err != nil || string(e.Value) != string(val(5)) {
+		classify("Get(rk5)", err)
+	}
+	if bs, _, _, err := db.ExportTxByID(ctx, &schema.ExportTxRequest{Tx: st.TxId}); err != nil || len(bs) == 0 {
+		classify(fmt.Sprintf("ExportTxByID(%d)", st.TxId), err)
+	}
+	if _, err := db.TxByID(ctx, &schema.TxRequest{Tx: cutTx}); err != nil {
+		classify(fmt.Sprintf("TxByID(%d)", cutTx), err)
+	}
+	if _, err := db.VerifiableTxByID(ctx, &schema.VerifiableTxRequest{Tx: st.TxId, ProveSinceTx: cutTx}); err != nil {
+		classify(fmt.Sprintf("VerifiableTxByID(%d)", st.TxId), err)
+	}
+	// and the same number of requests again: every one of them takes and returns a tx holder
+	for i := 0; i < pool+2; i++ {
+		if _, err := db.TxByID(ctx, &schema.TxRequest{Tx: cutTx}); err != nil {
+			classify(fmt.Sprintf("TxByID(%d), request %d", cutTx, i+1), err)
+			break
+		}
+	}
+	res.Count("db:requests-after-refused-exports", 1)
+	res.Traces++
 }
